@@ -1,0 +1,41 @@
+// Copyright (C) 2024 Storj Labs, Inc.
+// See LICENSE for copying information.
+
+//go:build verif
+// +build verif
+
+package drpcpool
+
+// VerifCounts walks the pool's lists under its lock and reports the number of
+// cached entries found globally and per key, next to the pool's own counters.
+func (p *Pool[K, V]) VerifCounts() (walked, counted int, perKeyWalked, perKeyCounted map[K]int) {
+	p.mu.Lock()
+	defer p.mu.Unlock()
+
+	perKeyWalked = make(map[K]int)
+	perKeyCounted = make(map[K]int)
+	for ent := p.order.head; ent != nil && walked < 1<<20; ent = ent.global.next {
+		walked++
+	}
+	counted = p.order.count
+	for key, local := range p.entries {
+		n := 0
+		for ent := local.head; ent != nil && n < 1<<20; ent = ent.local.next {
+			n++
+		}
+		perKeyWalked[key] = n
+		perKeyCounted[key] = local.count
+	}
+	return walked, counted, perKeyWalked, perKeyCounted
+}
+
+// VerifValues returns the cached values in global order.
+func (p *Pool[K, V]) VerifValues() (vals []V) {
+	p.mu.Lock()
+	defer p.mu.Unlock()
+
+	for ent := p.order.head; ent != nil && len(vals) < 1<<20; ent = ent.global.next {
+		vals = append(vals, ent.val)
+	}
+	return vals
+}
